@@ -51,6 +51,25 @@ def finder(ctx):
             ctx.violation("setting #%s (%s): %s: %s" % (sg.number, sg.short_name, field, msg),
                           {"setting": sg.number, "short_name": sg.short_name, "field": field, "message": msg},
                           key="%s:sg%s" % (field, sg.number))
+    # settings sharing number % 1000 must be of the same space-group type (affine-invariant fingerprint)
+    byn = {}
+    for sg in SpaceGroupList:
+        ops = [sglive.exact_op(o) for o in sg.symop_list]
+        if any(o is None for o in ops):
+            continue
+        byn.setdefault(sg.number % 1000, []).append((sg, sglive.type_fingerprint(ops)))
+    for n, lst in byn.items():
+        ref = lst[0][1]
+        # the reference is the majority fingerprint
+        from collections import Counter
+        ref = Counter(fp for _, fp in lst).most_common(1)[0][0]
+        for sg, fp in lst:
+            if fp != ref:
+                found += 1
+                ctx.violation("setting #%s (%s, %r): number %% 1000 = %d but its operations are not of the space-group type of the other "
+                              "settings numbered %d (screw/glide character of %d rotation parts differs)" % (
+                                  sg.number, sg.short_name, sg.pdb_name, n, n, len(set(fp) ^ set(ref))),
+                              {"setting": sg.number, "short_name": sg.short_name, "field": "itnumber"}, key="itnumber:sg%s" % sg.number)
     return found
 
 
